@@ -1221,3 +1221,43 @@ def f_direct_call(P, E):
                       body=b, line=c.line)
             break
     return r
+
+
+def o_slot_calls(P, E):
+    """Inside impl Observer a slot is only ever invoked through the call-if-present forms: between `is_subscribed()` and the invocation
+    another thread may empty the slot, and the panicking FunctionWrapper::call would unwind through the emitting source (a Subject's
+    broadcast loop stops in the middle of its snapshot)."""
+    r = RuleResult("O-slot-calls", "Observer invokes its slots only with call_if_available / call_and_clear_if_available")
+    n = 0
+    for m in [x for x in P.bodies.values() if x.kind == "assoc" and x.impl_self and norm(ty_adt(x.impl_self) or "") == OBSERVER
+              and not x.impl_trait and x.id not in P.absorbed]:
+        for c in m.calls:
+            if atom(c) == "fw_call" and c.args and any(rk == "param" and rd == 1 and path[:1] in (("fn_next",), ("fn_error",), ("fn_complete",))
+                                                       for (rk, rd, path) in m.operand_prov(c.args[0])):
+                n += 1
+                r.instance((m.nid, c.path.split("::")[-1]), True, None)
+                if c.path.split("::")[-1] == "call":
+                    r.violate((m.nid, "panicking call on a slot"),
+                              "Observer::%s invokes a slot with FunctionWrapper::call, which panics on an empty slot: the slot can be emptied by "
+                              "another thread after the is_subscribed() test" % m.name, body=m, line=c.line)
+    if n < 1:
+        r.error("O-slot-calls: no slot invocation found in impl Observer")
+    return r
+
+
+def sub_handoff_only(P, E):
+    """Observable::inner_subscribe itself never signals or unsubscribes the observer it was given: it hands it to the source and captures
+    it in the two closures of the Subscription it returns.  (An `unsubscribe()` of its own after the source returned races with a source
+    thread that is delivering the terminal: the callback slot is emptied under it and the terminal is lost.)"""
+    r = RuleResult("SUB-handoff-only", "inner_subscribe does not call next/error/complete/unsubscribe on the observer itself")
+    b = P.body(OBSERVABLE + "::inner_subscribe")
+    if b is None:
+        r.error("anchor missing: Observable::inner_subscribe")
+        return r
+    bad = [c for c in b.calls if atom(c) in ("obs_next", "obs_error", "obs_complete", "obs_unsubscribe")]
+    r.instance((b.nid, "observer calls"), True, "direct observer calls in inner_subscribe: %s" % [atom(c) for c in bad])
+    for c in bad:
+        r.violate((b.nid, "inner_subscribe signals the observer itself", atom(c)),
+                  "Observable::inner_subscribe calls %s on the observer it was given (outside the Subscription's closures): only the source "
+                  "and the caller's Subscription may do that" % atom(c), body=b, line=c.line)
+    return r
